@@ -270,6 +270,30 @@ theorem C01_true_launch_angle (I : Ice) (zFrom zTo angle : ℝ) (hn : 0 < I.inde
   have h := true_angle_same_beta I zFrom zTo angle hn hβ
   exact ⟨h.1, h.2.1, h.2.2.1, h.2.2.2.1, h.2.2.2.2, h.2.2.2.2⟩
 
+/-! ## `expected_solutions` decision table -/
+
+/-- the decision table of `expected_solutions`: an endpoint outside the ice gives no solution; otherwise
+either none or exactly two solutions are expected, the last one always indirect (`[direct, indirect₁,
+indirect₂]`): a direct one together with the low-angle indirect one when `ρ < direct_r_max`, the two
+indirect ones when `direct_r_max ≤ ρ < indirect_r_max` -/
+theorem C01_expected_solutions_table (cf ct : Bool) (ρ dmax imax : ℝ) :
+    (¬ (cf = true ∧ ct = true) → expectedSolutions cf ct ρ dmax imax = [false, false, false]) ∧
+    (cf = true → ct = true → ρ < dmax → expectedSolutions cf ct ρ dmax imax = [true, false, true]) ∧
+    (cf = true → ct = true → dmax ≤ ρ → ρ < imax →
+      expectedSolutions cf ct ρ dmax imax = [false, true, true]) ∧
+    (cf = true → ct = true → dmax ≤ ρ → imax ≤ ρ →
+      expectedSolutions cf ct ρ dmax imax = [false, false, false]) ∧
+    ((expectedSolutions cf ct ρ dmax imax).count true = 0 ∨
+      (expectedSolutions cf ct ρ dmax imax).count true = 2) := by
+  unfold expectedSolutions
+  refine ⟨?_, ?_, ?_, ?_, ?_⟩
+  · intro h
+    cases cf <;> cases ct <;> simp_all
+  · intro h1 h2 h3; simp [h1, h2, h3]
+  · intro h1 h2 h3 h4; simp [h1, h2, not_lt.mpr h3, h4]
+  · intro h1 h2 h3 h4; simp [h1, h2, not_lt.mpr h3, not_lt.mpr h4]
+  · split_ifs <;> simp
+
 /-! ## numeric tracer: trapezoid rule on a monotone integrand -/
 
 /-- composite trapezoid rule on `n` cells of width `h = (b−a)/n`, monotone integrand:
@@ -414,3 +438,74 @@ example : betaTolerance < nzT antarctic (-100) ∧ (-300 : ℝ) ≤ -100.1 ∧ (
     unfold betaTolerance
     simp only [RofNat, RayConstants.betaToleranceNum, RayConstants.betaToleranceDen]; norm_num
   linarith
+
+/-- Snell / launch-reception theorems: a ray launched downward (2.5 rad) from −100 m, received at −300 m -/
+example : 0 < antarctic.index (-100) ∧ 0 < antarctic.index (-300) ∧
+    |pathBeta antarctic (-100) 2.5| ≤ antarctic.index (-300) := by
+  have i1 : antarctic.index (-300) = nzT antarctic (-300) :=
+    index_eq_nzT antarctic (-300) (by simp only [antarctic]; norm_num) (by simp only [antarctic]; norm_num)
+  have i2 : antarctic.index (-100) = nzT antarctic (-100) :=
+    index_eq_nzT antarctic (-100) (by simp only [antarctic]; norm_num) (by simp only [antarctic]; norm_num)
+  have h1 := antarctic_nz_ge (-300) (by norm_num)
+  have h2 := antarctic_nz_ge (-100) (by norm_num)
+  have hmono : nzT antarctic (-100) < nzT antarctic (-300) :=
+    nzT_strictAnti antarctic (by simp only [antarctic]; norm_num) (by simp only [antarctic]; norm_num)
+      (by norm_num : (-300 : ℝ) < -100)
+  refine ⟨by rw [i2]; linarith, by rw [i1]; linarith, ?_⟩
+  unfold pathBeta
+  rw [i1, i2, abs_mul, abs_of_pos (by linarith : 0 < nzT antarctic (-100))]
+  have hs : |Real.sin (2.5 : ℝ)| ≤ 1 := Real.abs_sin_le_one _
+  calc nzT antarctic (-100) * |Real.sin (2.5 : ℝ)| ≤ nzT antarctic (-100) * 1 :=
+        mul_le_mul_of_nonneg_left hs (by linarith)
+    _ ≤ nzT antarctic (-300) := by linarith
+
+/-- deep-index bound: hypotheses hold for the Antarctic ice (the bound depth exists: take it itself) -/
+example : 0 < antarctic.k ∧ 0 < antarctic.a ∧ 0 < antarctic.n0 ∧
+    ∃ z : ℝ, z ≤ Real.log ((antarctic.n0 - antarctic.n0 * uniformityFactor) / antarctic.k) / antarctic.a :=
+  ⟨by simp only [antarctic]; norm_num, by simp only [antarctic]; norm_num, by simp only [antarctic]; norm_num,
+    ⟨_, le_refl _⟩⟩
+
+/-- crossing theorem: `z0 = −900 < z_u = −765 ≤ z1 = −100`, `β = 1` -/
+example : betaTolerance < (1 : ℝ) ∧ (-900 : ℝ) < -765 ∧ (-765 : ℝ) ≤ -100 ∧ (1 : ℝ) ≤ nzT antarctic (-100) := by
+  have h := antarctic_nz_ge (-100) (by norm_num)
+  refine ⟨?_, by norm_num, by norm_num, by linarith⟩
+  unfold betaTolerance
+  simp only [RofNat, RayConstants.betaToleranceNum, RayConstants.betaToleranceDen]; norm_num
+
+/-- turning-point dichotomy: `β = 1.2 < n(hi) = 1.35` reflects at the surface of the Antarctic ice -/
+example : 0 < antarctic.k ∧ 0 < antarctic.a ∧ antarctic.lo ≤ antarctic.hi ∧
+    (1.2 : ℝ) ≤ antarctic.index antarctic.lo ∧ (1.2 : ℝ) < antarctic.n0 ∧ (1.2 : ℝ) < antarctic.index antarctic.hi := by
+  have ilo : antarctic.index antarctic.lo = nzT antarctic antarctic.lo :=
+    index_eq_nzT antarctic _ (le_refl _) (by simp only [antarctic]; norm_num)
+  have ihi : antarctic.index antarctic.hi = nzT antarctic antarctic.hi :=
+    index_eq_nzT antarctic _ (by simp only [antarctic]; norm_num) (le_refl _)
+  have h1 := antarctic_nz_ge antarctic.lo (by simp only [antarctic]; norm_num)
+  have h2 := antarctic_nz_ge antarctic.hi (by simp only [antarctic]; norm_num)
+  refine ⟨by simp only [antarctic]; norm_num, by simp only [antarctic]; norm_num,
+    by simp only [antarctic]; norm_num, by rw [ilo]; linarith, by simp only [antarctic]; norm_num,
+    by rw [ihi]; linarith⟩
+
+/-- direct-path theorem: from −300 m up to −100 m, launch angle 0 ≤ max_angle -/
+example : antarctic.lo ≤ tracerZ0 (-300) (-100) ∧ tracerZ1 (-300) (-100) ≤ antarctic.hi ∧
+    0 < antarctic.index (tracerZ1 (-300) (-100)) ∧ (0 : ℝ) ≤ maxAngle antarctic (-300) (-100) := by
+  have hz0 : tracerZ0 (-300 : ℝ) (-100) = -300 := by unfold tracerZ0; norm_num
+  have hz1 : tracerZ1 (-300 : ℝ) (-100) = -100 := by unfold tracerZ1; norm_num
+  have i1 : antarctic.index (-300) = nzT antarctic (-300) :=
+    index_eq_nzT antarctic (-300) (by simp only [antarctic]; norm_num) (by simp only [antarctic]; norm_num)
+  have i2 : antarctic.index (-100) = nzT antarctic (-100) :=
+    index_eq_nzT antarctic (-100) (by simp only [antarctic]; norm_num) (by simp only [antarctic]; norm_num)
+  have h1 := antarctic_nz_ge (-300) (by norm_num)
+  have h2 := antarctic_nz_ge (-100) (by norm_num)
+  refine ⟨by rw [hz0]; simp only [antarctic]; norm_num, by rw [hz1]; simp only [antarctic]; norm_num,
+    by rw [hz1, i2]; linarith, ?_⟩
+  unfold maxAngle; rw [hz0, hz1, i1, i2]; simp only [Rasin]
+  exact Real.arcsin_nonneg.mpr (div_nonneg (by linarith) (by linarith))
+
+/-- launch-angle conversion: low-to-high angle 0 from the higher point −100 m towards −300 m -/
+example : 0 < antarctic.index (-100) ∧
+    |antarctic.index (tracerZ0 (-100) (-300)) * Real.sin 0| ≤ antarctic.index (-100) := by
+  have i2 : antarctic.index (-100) = nzT antarctic (-100) :=
+    index_eq_nzT antarctic (-100) (by simp only [antarctic]; norm_num) (by simp only [antarctic]; norm_num)
+  have h2 := antarctic_nz_ge (-100) (by norm_num)
+  refine ⟨by rw [i2]; linarith, ?_⟩
+  rw [Real.sin_zero, mul_zero, abs_zero, i2]; linarith
